@@ -661,6 +661,45 @@ func (Engine) Run(c *simkit.Choices, x *simkit.Ctx) *simkit.Violation {
 		}
 	}
 
+	// restart: Reset, SetTarget, probe document (the unfolder of the abandoned
+	// document, or the one whose SetTarget was refused)
+	restart := func(ru *gotype.Unfolder, site string) *simkit.Violation {
+		var got interface{}
+		var gerr error
+		var v *simkit.Violation
+		pi := simkit.Guard(func() {
+			u := ru
+			u.Reset()
+			if d, ok := simkit.Depths(u); ok && !reflect.DeepEqual(d, idle) {
+				v = &simkit.Violation{Kind: "stack-not-idle", Site: site,
+					Detail: fmt.Sprintf("after Reset the unfolder stacks are %v, a new unfolder has %v", d, idle), Scenario: sc}
+				return
+			}
+			ptr, intact, val := pte.NewTarget()
+			if err := u.SetTarget(ptr); err != nil {
+				gerr = err
+				return
+			}
+			gerr = deliverAll(u, probe, sc.ByRef)
+			got = model.DeepCopy(val())
+			if !intact() {
+				v = &simkit.Violation{Kind: "memory-corrupted", Site: pte.Name, Detail: "sentinel words around the probe target were overwritten", Scenario: sc}
+			}
+		})
+		if pi != nil {
+			return &simkit.Violation{Kind: "panic", Site: "after-reset" + pi.Site,
+				Detail: fmt.Sprintf("probe after Reset: %s\n%s", pi.Value, pi.Stack), Scenario: sc}
+		}
+		if v != nil {
+			return v
+		}
+		if (gerr == nil) != (ferr == nil) || (ferr == nil && !model.DeepEq(fresh, got)) {
+			return &simkit.Violation{Kind: "probe-differs", Site: site + "->" + pte.Name,
+				Detail: fmt.Sprintf("probe after abandon+Reset built %s (err %v); a new unfolder builds %s (err %v)", model.Render(got), gerr, model.Render(fresh), ferr), Scenario: sc}
+		}
+		return nil
+	}
+
 	for _, k := range ks {
 		x.Alive()
 		stream := append([]simkit.Ev{}, evs...)
@@ -716,7 +755,37 @@ func (Engine) Run(c *simkit.Choices, x *simkit.Ctx) *simkit.Violation {
 				return &simkit.Violation{Kind: "target-refused", Site: site, Detail: "SetTarget refused a supported type: " + r.setErr.Error(), Scenario: sc}
 			}
 			st.Probe("unsupported-target-refused")
-			return nil
+			if r.u == nil {
+				return nil
+			}
+			// a refusal leaves nothing behind: the same unfolder refuses the
+			// type, and every type that contains it, again and again (a new
+			// unfolder does), and then processes the probe like a new one
+			var v *simkit.Violation
+			if pi := simkit.Guard(func() {
+				for round := 0; round < 2 && v == nil; round++ {
+					for _, name := range []string{te.Name, "HasBad", "[]BadField", "BadField", "map[int]string", "IfaceField", "HasIface"} {
+						bte := model.TypeByName(name)
+						if round == 1 {
+							r.u.Reset()
+						}
+						ptr, _, _ := bte.NewTarget()
+						if err := r.u.SetTarget(ptr); err == nil {
+							v = &simkit.Violation{Kind: "unsupported-target-accepted", Site: site + "/after-refusal->" + name,
+								Detail: fmt.Sprintf("SetTarget refused a %s; the same unfolder then ACCEPTED a %s, which a new unfolder refuses", te.Name, name), Scenario: sc}
+							return
+						}
+					}
+				}
+			}); pi != nil {
+				return &simkit.Violation{Kind: "panic", Site: "after-refusal" + pi.Site,
+					Detail: fmt.Sprintf("SetTarget after a refused SetTarget: %s\n%s", pi.Value, pi.Stack), Scenario: sc}
+			}
+			if v != nil {
+				return v
+			}
+			st.Probe("refused-again-after-refusal")
+			return restart(r.u, site+"/after-refusal")
 		}
 		if !te.Supported {
 			return &simkit.Violation{Kind: "unsupported-target-accepted", Site: site,
@@ -782,39 +851,8 @@ func (Engine) Run(c *simkit.Choices, x *simkit.Ctx) *simkit.Violation {
 			st.Probe("document-completed")
 		}
 
-		// restart: Reset, SetTarget, probe document
-		var got interface{}
-		var gerr error
-		var v *simkit.Violation
-		pi := simkit.Guard(func() {
-			u := r.u
-			u.Reset()
-			if d, ok := simkit.Depths(u); ok && !reflect.DeepEqual(d, idle) {
-				v = &simkit.Violation{Kind: "stack-not-idle", Site: site,
-					Detail: fmt.Sprintf("after Reset the unfolder stacks are %v, a new unfolder has %v", d, idle), Scenario: sc}
-				return
-			}
-			ptr, intact, val := pte.NewTarget()
-			if err := u.SetTarget(ptr); err != nil {
-				gerr = err
-				return
-			}
-			gerr = deliverAll(u, probe, sc.ByRef)
-			got = model.DeepCopy(val())
-			if !intact() {
-				v = &simkit.Violation{Kind: "memory-corrupted", Site: pte.Name, Detail: "sentinel words around the probe target were overwritten", Scenario: sc}
-			}
-		})
-		if pi != nil {
-			return &simkit.Violation{Kind: "panic", Site: "after-reset" + pi.Site,
-				Detail: fmt.Sprintf("probe after Reset: %s\n%s", pi.Value, pi.Stack), Scenario: sc}
-		}
-		if v != nil {
+		if v := restart(r.u, site); v != nil {
 			return v
-		}
-		if (gerr == nil) != (ferr == nil) || (ferr == nil && !model.DeepEq(fresh, got)) {
-			return &simkit.Violation{Kind: "probe-differs", Site: site + "->" + pte.Name,
-				Detail: fmt.Sprintf("probe after abandon+Reset built %s (err %v); a new unfolder builds %s (err %v)", model.Render(got), gerr, model.Render(fresh), ferr), Scenario: sc}
 		}
 	}
 	st.Sample(map[string]interface{}{"target": te.Name, "stream": src, "events": len(evs), "abandon_points": len(ks), "probe_type": pte.Name})
